@@ -28,8 +28,17 @@ def clean(x):
     return x
 
 
+DEADLINE = [None]
+
+
 def run(cfg, timeout):
     t0 = time.time()
+    # the whole stage has a wall budget: a configuration whose turn comes after it is not started
+    # (reported as a cap, like one that does not finish within its own limit)
+    if DEADLINE[0] is not None and t0 > DEADLINE[0]:
+        return {"cfg": cfg, "cap": True, "skipped": True, "wall": 0.0}
+    if DEADLINE[0] is not None:
+        timeout = max(30, min(timeout, DEADLINE[0] - t0 + 60))
     try:
         p = subprocess.run([BIN] + cfg, capture_output=True, text=True, timeout=timeout)
     except subprocess.TimeoutExpired:
@@ -130,7 +139,11 @@ def main():
     ncpu = os.cpu_count() or 4
     thorough = tier == "thorough"
     jobs = []
-    cap_s = 3000 if thorough else 240
+    cap_s = 900 if thorough else 240
+    # wall budget of the whole stage (thorough): the configurations are listed cheapest first
+    budget_s = 1800 if thorough else None
+    if budget_s:
+        DEADLINE[0] = t0 + budget_s
 
     def add(base, bounds, shards=1):
         for b in bounds:
@@ -161,6 +174,7 @@ def main():
     violations = {}
     machinery = []
     caps = []
+    skipped = []
     executions = 0
     configs = 0
     interior = 0
@@ -169,7 +183,10 @@ def main():
         name = " ".join(clean(x) for x in r["cfg"] if clean(x))
 
         if r.get("cap"):
-            caps.append(f"{name}: not finished within {cap_s}s")
+            if r.get("skipped"):
+                skipped.append(name)
+            else:
+                caps.append(f"{name}: not finished within {int(r.get('wall', cap_s))}s")
             continue
         if "crash" in r and "PANIC:" not in r["crash"] and "panic" in r["crash"].lower() and "aborting" in r["crash"]:
             r["crash"] = "PANIC: " + r["crash"][-200:].replace("\n", " ")
@@ -213,6 +230,9 @@ def main():
                 cls = "failure: " + e.split(":")[-1][:60]
             k = f"{prop} {cls} [{r['cfg'][0]}]"
             violations.setdefault(k, {"key": k, "what": f"{name}: {e[:500]}", "case": {"engine": "loomdrv.py", "sub": sub, "cfg": r["cfg"], "error": e[:800]}, "count": 0})["count"] += 1
+    if skipped:
+        kinds = sorted(set(" ".join(n.split(" --shard")[0].split()) for n in skipped))
+        caps.append(f"{len(skipped)} configuration shards not started, the stage's wall budget of {budget_s}s was used up: " + "; ".join(kinds[:12]) + (" ..." if len(kinds) > 12 else ""))
     extra = {"schedules_explored": executions, "configurations": configs,
              "per_configuration": {k: {"executions": v["executions"], "bounds_completed": sorted(v["bounds"])} for k, v in by_cfg.items()}}
     if sub == "c07":
